@@ -109,6 +109,11 @@ func (f *frame) builtin(b *ssa.Builtin, argv []ssa.Value, args []*Val, res ssa.V
 		return &Val{T: r, Typ: argv[0].Type()}, nil
 	case "print", "println":
 		return nil, nil
+	case "delete":
+		if args[0].T == nil || args[1].T == nil {
+			return nil, unsupported("delete on non-terms")
+		}
+		return nil, f.mapDelete(argv[0].Type(), args[0].T, args[1].T)
 	}
 	return nil, unsupported("builtin %s", b.Name())
 }
@@ -179,6 +184,20 @@ func (f *frame) callFunc(fn *ssa.Function, bindings []*Val, args []*Val, res ssa
 			}
 			key := f.e.regKey(cbLogKey(name), f.e.cbLogSort())
 			return &Val{T: Select(f.get(st, key, f.e.cbLogSort()), fv), Typ: fn.Signature.Results().At(0).Type()}, nil
+		case "vHas":
+			if args[0].T == nil || args[1].T == nil {
+				return nil, unsupported("vHas on non-terms")
+			}
+			st := f.st
+			if args[0].Old && f.oldSt != nil {
+				st = f.oldSt
+			}
+			mt := fn.Signature.Params().At(0).Type()
+			has, err := f.mapHas(st, mt, args[0].T, args[1].T)
+			if err != nil {
+				return nil, err
+			}
+			return &Val{T: has, Typ: types.Typ[types.Bool]}, nil
 		case "vCat":
 			if args[0].T == nil || args[1].T == nil {
 				return nil, unsupported("vCat on non-terms")
@@ -599,6 +618,7 @@ type modLoc struct {
 	param int
 	via   []string // pointer-typed fields followed from the parameter (p.a.b.f: via = [a b])
 	field string   // "" = whole object
+	mapc  bool     // p.a.m[*]: the contents of the map stored in field m (via includes m)
 }
 
 func parseModifies(fc *FuncContract) ([]modLoc, error) {
@@ -610,12 +630,20 @@ func parseModifies(fc *FuncContract) ([]modLoc, error) {
 			continue
 		}
 		m = strings.TrimPrefix(m, "*")
+		mapc := false
+		if strings.HasSuffix(m, "[*]") {
+			mapc = true
+			m = strings.TrimSuffix(m, "[*]")
+		}
 		name, field := m, ""
 		var via []string
 		if k := strings.Index(m, "."); k >= 0 {
 			name, field = m[:k], m[k+1:]
 			parts := strings.Split(field, ".")
 			via, field = parts[:len(parts)-1], parts[len(parts)-1]
+		}
+		if mapc {
+			via, field = append(via, field), ""
 		}
 		idx := -1
 		for i, p := range all {
@@ -626,7 +654,7 @@ func parseModifies(fc *FuncContract) ([]modLoc, error) {
 		if idx < 0 {
 			return nil, fmt.Errorf("%s:%d: modifies %q: no such parameter", fc.File, fc.Line, m)
 		}
-		out = append(out, modLoc{param: idx, via: via, field: field})
+		out = append(out, modLoc{param: idx, via: via, field: field, mapc: mapc})
 	}
 	return out, nil
 }
@@ -641,7 +669,7 @@ func (e *Engine) modKeys(callee *ssa.Function, ml modLoc) ([]string, error) {
 		return nil, fmt.Errorf("modifies: parameter %s is not a pointer", callee.Params[ml.param].Name())
 	}
 	et := pt.Elem()
-	for _, v := range ml.via {
+	for vi, v := range ml.via {
 		st, ok := et.Underlying().(*types.Struct)
 		if !ok {
 			return nil, fmt.Errorf("modifies: %s is not a struct", et)
@@ -649,6 +677,20 @@ func (e *Engine) modKeys(callee *ssa.Function, ml modLoc) ([]string, error) {
 		found := false
 		for i := 0; i < st.NumFields(); i++ {
 			if st.Field(i).Name() == v {
+				if ml.mapc && vi == len(ml.via)-1 {
+					mt, ok := st.Field(i).Type().Underlying().(*types.Map)
+					if !ok {
+						return nil, fmt.Errorf("modifies: field %s is not a map", v)
+					}
+					ks, err1 := e.Sorts.SortOf(mt.Key())
+					vs, err2 := e.Sorts.SortOf(mt.Elem())
+					if err1 != nil || err2 != nil {
+						return nil, fmt.Errorf("modifies: unsupported map type of %s", v)
+					}
+					ft := st.Field(i).Type()
+					return []string{e.regKey("MD:"+typeKey(ft), e.Sorts.ArrOf(SRef, e.Sorts.ArrOf(ks, SBool))),
+						e.regKey("MV:"+typeKey(ft), e.Sorts.ArrOf(SRef, e.Sorts.ArrOf(ks, vs)))}, nil
+				}
 				fp, ok := st.Field(i).Type().Underlying().(*types.Pointer)
 				if !ok {
 					return nil, fmt.Errorf("modifies: field %s is not a pointer", v)
@@ -1142,7 +1184,7 @@ func (f *frame) checkFrame(params []*Val, pos token.Pos) error {
 			}
 			continue
 		}
-		if !(strings.HasPrefix(k, "H:") || strings.HasPrefix(k, "C:") || strings.HasPrefix(k, "G:")) {
+		if !(strings.HasPrefix(k, "H:") || strings.HasPrefix(k, "C:") || strings.HasPrefix(k, "G:") || strings.HasPrefix(k, "MD:") || strings.HasPrefix(k, "MV:")) {
 			continue
 		}
 		cur := f.st.m[k]
@@ -1460,7 +1502,9 @@ func (f *frame) modRef(callee *ssa.Function, ml modLoc, arg *Val, st *State) (*T
 				key := f.e.fieldKey(et, i)
 				arr := f.get(st, key, f.e.keySort[key])
 				ref = Select(arr, ref)
-				et = stt.Field(i).Type().Underlying().(*types.Pointer).Elem()
+				if pt, ok := stt.Field(i).Type().Underlying().(*types.Pointer); ok {
+					et = pt.Elem()
+				}
 				break
 			}
 		}
